@@ -99,7 +99,7 @@ type fixture struct {
 }
 
 func buildFixture(r *vh.Run, rng *rand.Rand, root string, i int) fixture {
-	kinds := []string{"populated", "populated-nested", "legacy", "legacy", "testdata", "stray-uploads", "empty-root", "truncated-index"}
+	kinds := []string{"populated", "populated-nested", "legacy", "legacy", "testdata", "stray-uploads", "empty-root", "truncated-index", "bad-layout-file"}
 	f := fixture{kind: kinds[i%len(kinds)]}
 	switch f.kind {
 	case "populated", "populated-nested", "stray-uploads":
@@ -141,6 +141,21 @@ func buildFixture(r *vh.Run, rng *rand.Rand, root string, i int) fixture {
 		f.repos = []string{"testrepo", "corrupt", "exdir"}
 	case "empty-root":
 		f.repos = []string{"r"}
+	case "bad-layout-file":
+		// index.json and blobs are fine, the oci-layout file is missing, of another version, or not JSON: whatever the
+		// store makes of such a repository, it does not repair it
+		p := filepath.Join(root, "b")
+		_ = os.MkdirAll(filepath.Join(p, "blobs", "sha256"), 0o755)
+		b := []byte(fmt.Sprintf("content of a repository with a bad layout file %d", i))
+		_ = os.WriteFile(filepath.Join(p, "blobs", "sha256", vh.DigestOf("sha256", b)[7:]), b, 0o644)
+		_ = os.WriteFile(filepath.Join(p, "index.json"), []byte(`{"schemaVersion":2,"mediaType":"application/vnd.oci.image.index.v1+json","manifests":[]}`), 0o644)
+		switch (i / 27) % 3 {
+		case 1:
+			_ = os.WriteFile(filepath.Join(p, "oci-layout"), []byte(`{"imageLayoutVersion":"9.9.9"}`), 0o644)
+		case 2:
+			_ = os.WriteFile(filepath.Join(p, "oci-layout"), []byte(`not json`), 0o644)
+		}
+		f.repos = []string{"b"}
 	case "truncated-index":
 		// a layout whose index.json was cut off (a writer that died): nothing of it can be listed, and nothing may be
 		// changed either
@@ -162,8 +177,8 @@ func readonlyBatch(r *vh.Run, i int) {
 	root := filepath.Join(base, "root")
 	_ = os.MkdirAll(root, 0o755)
 	f := buildFixture(r, rng, root, i)
-	kind := []vh.StoreKind{vh.Dir, vh.MemDir, vh.MemDir}[(i/8)%3]
-	ro := kind == vh.Dir || (i/8)%3 == 2 // the directory store is always opened read-only, the memory store over the directory in one of two batches
+	kind := []vh.StoreKind{vh.Dir, vh.MemDir, vh.MemDir}[(i/9)%3]
+	ro := kind == vh.Dir || (i/9)%3 == 2 // the directory store is always opened read-only, the memory store over the directory in one of two batches
 	before := snapshot(root)
 	var mu sync.Mutex
 	var muts []string
@@ -367,7 +382,7 @@ func readonlyBatch(r *vh.Run, i int) {
 		p := reqs[rng.Intn(len(reqs))]
 		rs := do(p.rq)
 		r.Distinct("request_kinds", p.rq.Method+" "+strings.SplitN(strings.TrimPrefix(p.rq.URL, "/v2/"+rp+"/"), "/", 2)[0])
-		if rs.Status >= 500 && f.kind != "truncated-index" { // (a repository whose index cannot be parsed may fail to load; refusals are judged below)
+		if rs.Status >= 500 && f.kind != "truncated-index" && f.kind != "bad-layout-file" { // (a repository whose index cannot be parsed may fail to load; refusals are judged below)
 			viol("5xx", fmt.Sprintf("%s answered %d on a %s store (read-only %v)", vh.ShortReq(p.rq), rs.Status, kind, ro))
 			ok = false
 		}
@@ -523,7 +538,7 @@ func switchBatch(r *vh.Run, i int) {
 
 func main() {
 	r := vh.Start()
-	na := r.N(96, 2400)
+	na := r.N(108, 2700)
 	nb := r.N(64, 640)
 	vh.Parallel(na+nb, 12, func(i int) {
 		if i < na {
@@ -538,5 +553,5 @@ func main() {
 	r.Require("switch_trials", int64(nb/2))
 	r.Require("unchanged_state_checks", int64(nb*3))
 	r.RequireDistinct("fixtures_x_stores", 10)
-	r.Finish("(a) read-only directory stores and memory-over-directory stores (collection ticker at 3 ms, no grace period) over 8 fixture kinds (populated, nested, legacy accurate/stale incl. what the fallback tags record, olareg's testdata incl. the corrupt layout, stray _uploads and temp files, empty root, truncated index.json), the memory store over the directory writable and read-only, x 60 requests of 16 kinds incl. uploads, mounts, pushes, deletes, listings, referrers with and without filter, ranges; os-shim monitor for mutating calls, recursive snapshot compare after the batch and after Close, fixture content re-read; (b) all 32 combinations of read-only / push / delete / blob delete / referrers on a directory store with a 12-probe behaviour table and snapshot compare after every refused probe; a case is one batch or combination trial, distinct = fixture x store pairs", "cases", "fixtures_x_stores")
+	r.Finish("(a) read-only directory stores and memory-over-directory stores (collection ticker at 3 ms, no grace period) over 9 fixture kinds (a missing / foreign / unparsable oci-layout file, populated, nested, legacy accurate/stale incl. what the fallback tags record, olareg's testdata incl. the corrupt layout, stray _uploads and temp files, empty root, truncated index.json), the memory store over the directory writable and read-only, x 60 requests of 16 kinds incl. uploads, mounts, pushes, deletes, listings, referrers with and without filter, ranges; os-shim monitor for mutating calls, recursive snapshot compare after the batch and after Close, fixture content re-read; (b) all 32 combinations of read-only / push / delete / blob delete / referrers on a directory store with a 12-probe behaviour table and snapshot compare after every refused probe; a case is one batch or combination trial, distinct = fixture x store pairs", "cases", "fixtures_x_stores")
 }
